@@ -1,63 +1,23 @@
 /-
-C13 helper lemmas, part 8 (routes of any length): the induction over the route, from the last router
-backwards.  See the head of NrfProofs/C13HopsStep.lean for the course of events.
+C13, the air log: the route induction of NrfProofs/C13HopsRoute.lean once more, with the air clause `AirA`
+(NrfProofs/C13Air1.lean) added to the outcome: the run of the router `n` hops from the destination appends
+exactly the transmissions `ackPlan` lists from its position on.  The proofs are those of the original
+lemmas with the air bookkeeping added.
 -/
-import NrfProofs.C13HopsStep
+import NrfProofs.C13Air2
+import NrfProofs.C13Air3
 
-namespace Nrf.Net.Hops
-open Nrf Nrf.Spec Nrf.Proofs Nrf.Props.C04
-
-/-- **A router holds the acknowledged frame, `n ≥ 1` hops from its destination.**  It is the running
-    node (just entered by `runOthers`), position `m ≥ 1` of the route `o → d`; the nodes ahead are
-    present, off the call stack, and the packet each accepted last (if any) does not carry the bytes `pk`
-    (`NotDup`); node `b`, the one before it on the
-    route (its hop towards `o`), is on the call stack; every RX FIFO but its own is empty; no node on
-    the call stack took the acknowledgement `pkA` as its last packet; the destination's queue
-    accepts the frame, and its type is one the destination hands to the application. -/
-structure HoldingA (cfg : AddrCfg) (L : LinkCfg) (tree : Nat → List Nat) (o d : List Nat) (fr : Frame)
-    (pk pkA : Bytes) (t n b : Nat) (s : NetState) : Prop where
-  ok : NetOk cfg L tree s
-  cur : s.cur < s.nodes.length
-  act : s.cur ∈ s.active
-  pos : ∃ m, 1 ≤ m ∧ m + n = dist o d ∧ tree s.cur = hops m o d
-  ahead : ∀ k, 1 ≤ k → k ≤ n → ∃ j, j < s.nodes.length ∧ tree j = hops k (tree s.cur) d ∧ j ∉ s.active ∧
-    NotDup (s.radioAt j) pk
-  back : b < s.nodes.length ∧ tree b = nextHopSpec (tree s.cur) o ∧ b ∈ s.active
-  fifo : ∃ p, p ≤ 5 ∧ (s.radioAt s.cur).rxFifo = [{ pipe := p, data := pk }]
-  empty : ∀ j, j < s.nodes.length → j ≠ s.cur → (s.radioAt j).rxFifo = []
-  nodup : ∀ j, j < s.nodes.length → j ∈ s.active → ∀ l, (s.radioAt j).lastRx = some l → l.data ≠ pkA
-  acc : ∀ j, j < s.nodes.length → tree j = d → Accepts (s.nodeAt j).queue fr
-  sys : ∀ j, j < s.nodes.length → tree j = d → SysOk t (s.nodeAt j).retSysMsg
-
-/-- the outcome of that router's `update()`: the frame is in the destination's queue, the
-    acknowledgement — exactly it — is in the RX FIFO of `b`, every other RX FIFO is empty, the whole
-    network listens, and the radios of the other nodes on the call stack were not touched -/
-structure ArrivedA (cfg : AddrCfg) (L : LinkCfg) (tree : Nat → List Nat) (d : List Nat) (fr : Frame)
-    (pkA : Bytes) (b : Nat) (s s' : NetState) : Prop where
-  ok : NetOk cfg L tree s'
-  cur : s'.cur = s.cur
-  active : s'.active = s.active
-  same : Same s s'
-  fifob : ∃ q, (s'.radioAt b).rxFifo = [{ pipe := q, data := pkA }]
-  fifo : ∀ j, j < s.nodes.length → j ≠ b → (s'.radioAt j).rxFifo = []
-  queue : ∀ j, j < s.nodes.length →
-    (s'.nodeAt j).queue.frames = (s.nodeAt j).queue.frames ++ (if tree j = d then [fr] else [])
-  keep : ∀ j, j < s.nodes.length → j ∈ s.active → j ≠ s.cur → j ≠ b → s'.radioAt j = s.radioAt j
-
-theorem HoldingA.dist_cur {cfg : AddrCfg} {L : LinkCfg} {tree : Nat → List Nat} {o d : List Nat} {fr : Frame}
-    {pk pkA : Bytes} {t n b : Nat} {s : NetState} (H : HoldingA cfg L tree o d fr pk pkA t n b s) :
-    dist (tree s.cur) d = n := by
-  obtain ⟨m, _, hmn, hm⟩ := H.pos
-  have := dist_hops (s := o) (d := d) (i := m) (by omega)
-  rw [hm]; omega
+namespace Nrf.Net.Air
+open Nrf Nrf.Spec Nrf.Proofs Nrf.Props.C04 Nrf.Net.Hops
 
 /-- **The last router** (`router_ack_any`) in the terms of the induction. -/
-theorem route_ack_base (hc : L3Contracts) (cfg : AddrCfg) (hcfg : CfgOk cfg) (L : LinkCfg) (tree : Nat → List Nat)
+theorem route_ack_base_air (hc : L3Contracts) (hair : AirContracts) (cfg : AddrCfg) (hcfg : CfgOk cfg) (L : LinkCfg) (tree : Nat → List Nat)
     (fr : Frame) (pk pkA : Bytes) (t : Nat) (o d : List Nat) (T : AckTransitS fr pk t o d)
     (hpkA : (ackOf fr).pack = .ok pkA) (hndef : ∀ i, val (tree i) ≠ NETWORK_DEFAULT_ADDR)
     (s : NetState) (f b : Nat) (H : HoldingA cfg L tree o d fr pk pkA t 1 b s)
     (hf : 2 * (s.nodes.length + 16) ≤ f) :
-    ∃ s', nexec (nodeUpdate f) s = (.ok 0, s') ∧ ArrivedA cfg L tree d fr pkA b s s' := by
+    ∃ s', nexec (nodeUpdate f) s = (.ok 0, s') ∧ ArrivedA cfg L tree d fr pkA b s s' ∧
+      AirA tree o d pk pkA 1 s s' := by
   have hdist := H.dist_cur
   obtain ⟨hok, hcur, hact, ⟨m, hm1, hmn, hm⟩, hahead, ⟨hb, htb, hbact⟩, ⟨p, hp, hfifo⟩, hempty, hnodup, hacc, hsys⟩ := H
   obtain ⟨jd, hjd, htjd, hjda, hjdl⟩ := hahead 1 (by omega) (by omega)
@@ -76,29 +36,39 @@ theorem route_ack_base (hc : L3Contracts) (cfg : AddrCfg) (hcfg : CfgOk cfg) (L 
   have hxad : nextHopSpec (tree s.cur) o ≠ d := by
     rw [hbackm]; exact hops_ne_before (by omega)
   obtain ⟨g, rfl⟩ : ∃ g, f = g + 11 + jd := ⟨f - 11 - jd, by omega⟩
-  obtain ⟨s', e, ok', c', a', same', fifoa, fifoo, q', keep'⟩ := router_ack_any hc cfg hcfg L tree fr pk pkA t o
+  obtain ⟨s', e, ok', c', a', same', fifoa, fifoo, q', keep', ⟨r1, r2, airE, hr1, hr2⟩⟩ := router_ack_any_air hc hair cfg hcfg L tree fr pk pkA t o
     (tree s.cur) d (nextHopSpec (tree s.cur) o) T hpkA hndef s s.cur b jd g hok rfl hcur hb hjd rfl htb htjd' rfl hy2
     hoy hyd hxad hjda hact hbact p hp hfifo hempty hjdl (hnodup b hb hbact) (hacc jd hjd htjd') (hsys jd hjd htjd')
     (by omega)
-  refine ⟨s', e, ok', c', a', same', ⟨_, fifoa⟩, fifoo, ?_, keep'⟩
-  intro k hk
-  rw [q' k hk]
-  by_cases hkj : k = jd
-  · subst hkj; rw [if_pos rfl, if_pos htjd']
-  · rw [if_neg hkj, if_neg (fun e => (hok.inj k jd hk hjd hkj).1 (e.trans htjd'.symm))]
+  refine ⟨s', e, ⟨ok', c', a', same', ⟨_, fifoa⟩, fifoo, ?_, keep'⟩, ?_⟩
+  · intro k hk
+    rw [q' k hk]
+    by_cases hkj : k = jd
+    · subst hkj; rw [if_pos rfl, if_pos htjd']
+    · rw [if_neg hkj, if_neg (fun e => (hok.inj k jd hk hjd hkj).1 (e.trans htjd'.symm))]
+  · refine ⟨[r1, r2], airE, ?_⟩
+    have hm0 : dist o d - 1 = m' + 1 := by omega
+    rw [hm0]
+    have hsb : ∀ (rr : AirRec) (dat : Bytes), OneBy (s.ridAt s.cur) dat rr →
+        SentBy tree s rr (hops (m' + 1) o d, dat) :=
+      fun rr dat h => ⟨s.cur, hcur, hm, h.1, h.2.1, h.2.2.1, h.2.2.2⟩
+    show Forall2 _ _ [(hops (m' + 1) o d, pk), (hops (m' + 1) o d, pkA)]
+    exact .cons (hsb _ _ hr1) (.cons (hsb _ _ hr2) .nil)
 
 /-- **A router in the middle of the route**: forwards the frame, lets its successor run (induction
     hypothesis) inside its second `read()`, finds the NETWORK_ACK in its own RX FIFO, relays it to
     its predecessor, reads nothing more, returns. -/
-theorem route_ack_step (hc : L3Contracts) (cfg : AddrCfg) (hcfg : CfgOk cfg) (L : LinkCfg) (tree : Nat → List Nat)
+theorem route_ack_step_air (hc : L3Contracts) (hair : AirContracts) (cfg : AddrCfg) (hcfg : CfgOk cfg) (L : LinkCfg) (tree : Nat → List Nat)
     (fr : Frame) (pk pkA : Bytes) (t : Nat) (o d : List Nat) (T : AckTransitS fr pk t o d)
     (hpkA : (ackOf fr).pack = .ok pkA) (hndef : ∀ i, val (tree i) ≠ NETWORK_DEFAULT_ADDR) (n : Nat)
     (IH : ∀ (s : NetState) (f b : Nat), HoldingA cfg L tree o d fr pk pkA t (n + 1) b s →
       (n + 2) * (s.nodes.length + 16) ≤ f →
-      ∃ s', nexec (nodeUpdate f) s = (.ok 0, s') ∧ ArrivedA cfg L tree d fr pkA b s s')
+      ∃ s', nexec (nodeUpdate f) s = (.ok 0, s') ∧ ArrivedA cfg L tree d fr pkA b s s' ∧
+        AirA tree o d pk pkA (n + 1) s s')
     (s : NetState) (f b : Nat) (H : HoldingA cfg L tree o d fr pk pkA t (n + 2) b s)
     (hf : (n + 3) * (s.nodes.length + 16) ≤ f) :
-    ∃ s', nexec (nodeUpdate f) s = (.ok 0, s') ∧ ArrivedA cfg L tree d fr pkA b s s' := by
+    ∃ s', nexec (nodeUpdate f) s = (.ok 0, s') ∧ ArrivedA cfg L tree d fr pkA b s s' ∧
+      AirA tree o d pk pkA (n + 2) s s' := by
   have hdist := H.dist_cur
   obtain ⟨hok, hcur, hact, ⟨m, hm1, hmn, hm⟩, hahead, ⟨hb, htb, hbact⟩, ⟨p, hp, hfifo⟩, hempty, hnodup, hacc, hsys⟩ := H
   generalize hi : s.cur = i at *
@@ -134,7 +104,7 @@ theorem route_ack_step (hc : L3Contracts) (cfg : AddrCfg) (hcfg : CfgOk cfg) (L 
   have hpkl := R.pkLen
   have hpkAl := RA.pkLen
   -- 1. the first read: the frame
-  obtain ⟨s1, e1, ok1, c1, a1, same1, x1, lr1, rad1, q1, nd1⟩ := read_ok hc s i (g + 3 + j) hok hi hcur hq (by omega)
+  obtain ⟨s1, e1, ok1, c1, a1, same1, x1, lr1, rad1, q1, nd1, air1⟩ := read_ok_air hc hair s i (g + 3 + j) hok hi hcur hq (by omega)
     (by
       intro e he
       rw [hfifo] at he
@@ -150,7 +120,7 @@ theorem route_ack_step (hc : L3Contracts) (cfg : AddrCfg) (hcfg : CfgOk cfg) (L 
     · subst hki; exact x1
     · rw [rad1 k hk hki]; exact hempty k hk hki
   -- 2. the frame is forwarded
-  obtain ⟨s3, pid, A, e3, ok3, c3, a3, same3, rj3, x3, lr3, rad3, q3, nd3⟩ := relay_step hc cfg hcfg L tree fr pk t o d R
+  obtain ⟨s3, pid, A, e3, ok3, c3, a3, same3, rj3, x3, lr3, rad3, q3, nd3, ⟨rc3, air3, hrc3⟩⟩ := relay_step_air hc hair cfg hcfg L tree fr pk t o d R
     hndef s s1 i j (g + 1 + j) 0 (by rw [show g + 1 + j + 3 = g + 3 + j + 1 from by omega]; exact e1) ok1 c1
     (by rw [l1]; exact hcur) (by rw [hx]; exact hxd) (by rw [l1]; exact hj) (by rw [hx]; exact htj)
     (Or.inr (by rw [hx]; exact hnotlast))
@@ -228,11 +198,11 @@ theorem route_ack_step (hc : L3Contracts) (cfg : AddrCfg) (hcfg : CfgOk cfg) (L 
       have hki : k ≠ i := fun e => hxd (by rw [← hx, ← e]; exact htk)
       rw [← hsj, nodeAt_switchTo_ne s3 j k (by rw [c3]; exact hki), nd3 k hki, nd1 k hki]
       exact hsys k hk htk
-  obtain ⟨sj', ej, Aok, Acur, Aact, Asame, ⟨qA, Afifob⟩, Afifo, Aqueue, Akeep⟩ := IH sj (g + 1) i Hj (by rw [hsjl]; exact hgIH)
+  obtain ⟨sj', ej, ⟨Aok, Acur, Aact, Asame, ⟨qA, Afifob⟩, Afifo, Aqueue, Akeep⟩, ⟨newj, airj, hnewj⟩⟩ := IH sj (g + 1) i Hj (by rw [hsjl]; exact hgIH)
   rw [hsjl] at Afifo Aqueue Akeep
   rw [hsjc] at Akeep
   -- 4. the second read: the next node runs, then the acknowledgement is there
-  obtain ⟨s6, e6, ok6, c6, a6, same6, x6, lr6, rad6, q6⟩ := read_nested hc s3 sj' i j (g + 1) 0 ok3 c3
+  obtain ⟨s6, e6, ok6, c6, a6, same6, x6, lr6, rad6, q6, air6⟩ := read_nested_air hc hair s3 sj' i j (g + 1) 0 ok3 c3
     (by rw [l3]; exact hcur) (by rw [l3]; exact hj) hji (by rw [a3, a1]; exact hja)
     (by rw [rj3]; rfl)
     (by
@@ -265,7 +235,7 @@ theorem route_ack_step (hc : L3Contracts) (cfg : AddrCfg) (hcfg : CfgOk cfg) (L 
       hrad3 b hb hbi hbj]
   -- 5. the acknowledgement is relayed
   have hqA5 : hopPipe x o ≤ 5 := (C04_listens cfg hcfg x o hn1 T.hx hxo TX_ROUTED (Or.inr rfl)).2.1
-  obtain ⟨s8, pidA, AA, e8, ok8, c8, a8, same8, rb8, x8, lr8, rad8, q8, _⟩ := relay_step hc cfg hcfg L tree (ackOf fr) pkA
+  obtain ⟨s8, pidA, AA, e8, ok8, c8, a8, same8, rb8, x8, lr8, rad8, q8, _, ⟨rc8, air8, hrc8⟩⟩ := relay_step_air hc hair cfg hcfg L tree (ackOf fr) pkA
     NETWORK_ACK o o RA hndef s3 s6 i b (g + j) 0
     (by rw [show g + j + 3 = g + 1 + 2 + j from by omega]; exact e6) ok6 c6
     (by rw [l6]; exact hcur) (by rw [hx]; exact hxo) (by rw [l6]; exact hb) (by rw [hx]; exact htb)
@@ -286,7 +256,7 @@ theorem route_ack_step (hc : L3Contracts) (cfg : AddrCfg) (hcfg : CfgOk cfg) (L 
     have hkb : k ≠ b := fun e => hka (e ▸ hbact)
     rw [rad8 k hk hkc hkb]; exact hfifo6 k hk
   have hx8 : (s8.radioAt i).rxFifo = [] := by rw [x8]; exact x6
-  obtain ⟨s9, e9, ok9, c9, a9, same9, x9, lr9, rad9, q9, _⟩ := read_ok hc s8 i (g + 1 + j) ok8 c8 (by rw [l8]; exact hcur)
+  obtain ⟨s9, e9, ok9, c9, a9, same9, x9, lr9, rad9, q9, _, air9⟩ := read_ok_air hc hair s8 i (g + 1 + j) ok8 c8 (by rw [l8]; exact hcur)
     hq8 (by rw [l8]; omega) (by rw [hx8]; intro e he; cases he)
   rw [hx8] at e9 x9
   simp only [List.head?_nil, Option.map_none, List.tail_nil] at e9 x9
@@ -297,8 +267,8 @@ theorem route_ack_step (hc : L3Contracts) (cfg : AddrCfg) (hcfg : CfgOk cfg) (L 
       show g + j + 3 = (g + 2 + j) + 1 from by omega, netUpdate_step,
       show g + 2 + j = (g + 1 + j) + 1 from by omega, e9]
   have l9 : s9.nodes.length = s.nodes.length := by rw [same9.len, l8]
-  refine ⟨s9, ?_, ok9, by rw [c9, hi], by rw [a9, a8, a6, a3, a1],
-    (((same1.trans same3).trans same6).trans same8).trans same9, ⟨hopPipe x o, ?_⟩, ?_, ?_, ?_⟩
+  refine ⟨s9, ?_, ⟨ok9, by rw [c9, hi], by rw [a9, a8, a6, a3, a1],
+    (((same1.trans same3).trans same6).trans same8).trans same9, ⟨hopPipe x o, ?_⟩, ?_, ?_, ?_⟩, ?_⟩
   · rw [show g + 6 + j = (g + 5 + j) + 1 from by omega]
     refine nodeUpdate_plain (g + 5 + j) s s9 0 hnu ?_
     have := (ok9.node i (by rw [l9]; exact hcur)).2.2.2.2.1
@@ -316,26 +286,41 @@ theorem route_ack_step (hc : L3Contracts) (cfg : AddrCfg) (hcfg : CfgOk cfg) (L 
     have hkj : k ≠ j := fun e => hja (e ▸ hka)
     rw [rad9 k hk hki, rad8 k hk hki hkb, rad6 k hk hki,
       Akeep k hk (by rw [hsja]; exact List.mem_cons_of_mem _ hka) hkj hki, hsjrad, hrad3 k hk hki hkj]
+  · have hsjs : Same s sj := by rw [← hsj]; exact (same1.trans same3).trans (Same.switchTo s3 j)
+    have hsjair : sj.w.air = s3.w.air := by rw [← hsj]; rfl
+    refine ⟨rc3 :: (newj ++ [rc8]), ?_, ?_⟩
+    · rw [air9, air8, air6, airj, hsjair, air3, air1]; simp
+    · have hm2 : dist o d - (n + 2) = m := by omega
+      have hm1' : dist o d - (n + 1) = m + 1 := by omega
+      rw [hm2]; rw [hm1'] at hnewj
+      have hsb : ∀ (rr : AirRec) (dat : Bytes) (s0 : NetState), Same s s0 → OneBy (s0.ridAt i) dat rr →
+          SentBy tree s rr (hops m o d, dat) := by
+        intro rr dat s0 h0 h
+        exact ⟨i, hcur, hx.trans hm, h.1.trans (h0.stat i).2.2.2.2, h.2.1, h.2.2.1, h.2.2.2⟩
+      show Forall2 _ _ ((hops m o d, pk) :: (ackPlan o d pk pkA (m + 1) (n + 1) ++ [(hops m o d, pkA)]))
+      exact .cons (hsb _ _ s1 same1 hrc3) (((forall2_sentBy_of_same hsjs).2 hnewj).append
+        (.cons (hsb _ _ s6 ((same1.trans same3).trans same6) hrc8) .nil))
 
 /-- **The acknowledged journey**: whichever router holds the frame `n + 1` hops from its destination —
     the rest of the route present, idle, not having `pk` as the packet accepted last; the node before it
     suspended on the call stack — its `update()` brings the frame to the destination's queue,
     exactly once, and the NETWORK_ACK of the last router back into the RX FIFO of the node before it;
     the network listens and is otherwise quiet.  Induction over the remaining distance. -/
-theorem route_ack_all (hc : L3Contracts) (cfg : AddrCfg) (hcfg : CfgOk cfg) (L : LinkCfg) (tree : Nat → List Nat)
+theorem route_ack_all_air (hc : L3Contracts) (hair : AirContracts) (cfg : AddrCfg) (hcfg : CfgOk cfg) (L : LinkCfg) (tree : Nat → List Nat)
     (fr : Frame) (pk pkA : Bytes) (t : Nat) (o d : List Nat) (T : AckTransitS fr pk t o d)
     (hpkA : (ackOf fr).pack = .ok pkA) (hndef : ∀ i, val (tree i) ≠ NETWORK_DEFAULT_ADDR) :
     ∀ (n : Nat) (s : NetState) (f b : Nat), HoldingA cfg L tree o d fr pk pkA t (n + 1) b s →
       (n + 2) * (s.nodes.length + 16) ≤ f →
-      ∃ s', nexec (nodeUpdate f) s = (.ok 0, s') ∧ ArrivedA cfg L tree d fr pkA b s s' := by
+      ∃ s', nexec (nodeUpdate f) s = (.ok 0, s') ∧ ArrivedA cfg L tree d fr pkA b s s' ∧
+        AirA tree o d pk pkA (n + 1) s s' := by
   intro n
   induction n with
   | zero =>
     intro s f b H hf
-    exact route_ack_base hc cfg hcfg L tree fr pk pkA t o d T hpkA hndef s f b H (by omega)
+    exact route_ack_base_air hc hair cfg hcfg L tree fr pk pkA t o d T hpkA hndef s f b H (by omega)
   | succ n ih =>
     intro s f b H hf
-    exact route_ack_step hc cfg hcfg L tree fr pk pkA t o d T hpkA hndef n ih s f b H (by
+    exact route_ack_step_air hc hair cfg hcfg L tree fr pk pkA t o d T hpkA hndef n ih s f b H (by
       rw [show n + 3 = n + 1 + 2 from rfl]; exact hf)
 
-end Nrf.Net.Hops
+end Nrf.Net.Air
